@@ -107,6 +107,53 @@ theorem mask_independent_of_literals (a b : List Seg) (h : segShape a = segShape
     segMasked a 0 = segMasked b 0 :=
   segMasked_shape a b 0 h
 
+/-! ## the project option `lower` -/
+
+/-- with `lower: true` only the *code* is lower-cased: the literals kept for re-insertion
+    (`self.strings`: initial values, bind names, kinds given as literals) are those of the
+    statement as written, and the line the parser sees is the masked line of the statement with
+    its code lower-cased - every placeholder `"k"` survives with its number, so each literal
+    is put back where it was cut out.  For every statement, unbalanced quotes included. -/
+theorem lower_option_keeps_literals (line : Str) :
+    (prepLine true line).strings = (prepLine false line).strings ∧
+    (prepLine true line).strings = segStrings (cutLits line) ∧
+    (prepLine true line).masked = segMasked (lowerSegs (cutLits line)) 0 := by
+  simp [prepLine, lower_segMasked]
+
+/-- ... and the statement with its code lower-cased (`lowerSegs`) has the same literals, in the
+    same order, and differs from the source statement in letter case only ("convert all
+    non-string source code to lower case") -/
+theorem lower_option_code_only (line : Str) :
+    segStrings (lowerSegs (cutLits line)) = segStrings (cutLits line) ∧
+    lower (segOriginal (lowerSegs (cutLits line))) = lower line := by
+  refine ⟨segStrings_lowerSegs _, ?_⟩
+  rw [lower_segOriginal_lowerSegs]
+  have h : segOriginal (cutLits line) = line := by
+    simpa [cutLits, CutSt.pending] using segOriginal_cutGo line 0 .scan
+  rw [h]
+
+/-- the order of the two steps is what protects the literals: lower-casing the statement
+    *before* the literals are cut out gives the parser exactly the same line (letter case never
+    opens or closes a literal, so no test of the parser can tell the two orders apart) but
+    every literal kept for display is lower-cased - for every statement -/
+theorem lower_before_cut_loses_case (line : Str) :
+    (prepLineLowerFirst line).masked = (prepLine true line).masked ∧
+    (prepLineLowerFirst line).strings = ((prepLine true line).strings).map lower := by
+  have h : cutLits (lower line) = lowerAllSegs (cutLits line) := by
+    simpa [cutLits, lowered_scan] using cutGo_lower line 0 .scan
+  simp [prepLineLowerFirst, prepLine, h, segStrings_lowerAllSegs, segMasked_lowerAllSegs, lower_segMasked]
+
+/-- ... which shows as soon as a literal contains a capital letter: `'Ab'` would be displayed
+    as `'ab'`, a `bind(c, name="F_c")` as another C name -/
+theorem lower_before_cut_witness :
+    (prepLineLowerFirst "c = 'Ab'".toList).strings = ["'ab'".toList] ∧
+    (prepLine true "C = 'Ab'".toList).strings = ["'Ab'".toList] ∧
+    (prepLine true "C = 'Ab'".toList).masked = "c = \"0\"".toList := by decide
+
+/-- the whole path with the option on: names and code lower-cased, literal as written -/
+example : (declVarsOpt true "CHARACTER(3) :: Xv(N) = 'Ab'//Q".toList).toOption
+    = some [⟨"xv".toList, "(n)".toList, false, some "'Ab'//q".toList⟩] := by decide
+
 /-- the literal is used as a `re.sub` replacement *template*; doubling the backslashes
     exactly cancels the template's escape processing, for every string -/
 theorem tmpl_double_cancels (s : Str) : tmplExpand (doubleBs s) = .ok s :=
